@@ -202,3 +202,22 @@ main_ob("main2_stdout", "h_main_files", G, "-dc", oper0="a.bz2", oper1="b.bz2", 
 FW = ["exit_success", "exit_failure", "death_by_signal"]
 for nm, args in (("filter_compress", "-z"), ("filter_decompress", "-d"), ("filter_copy", "-dcf")):
     main_ob("main_" + nm, "h_main_filter", {"C21": "quick", "C07": "quick"}, args, extra=["-DFILTER_CHECKS"], witnesses=FW)
+
+# C22: option sources and parsing
+def opts_ob(name, ntok, one_env, tier, to):
+    add(name, "h_main.c", "h_opts", {"C22": tier},
+        defines=["-include", "/verif/harness/osmodel_sig.h", "-DOPTS_ONLY", "-DNTOK=%d" % ntok] + (["-DONE_ENV"] if one_env else []),
+        cbmc=["--unwind", "19", "--unwindset", "h_opts.0:42,opts_setup.0:4,opts_setup.1:5,opts_setup.2:%d,opts_setup.3:5,opts_setup.4:%d,opts_setup.5:%d" % (ntok + 2, ntok + 8, ntok + 8)],
+        object_bits=12, backend="kissat", timeout=to, mem_gb=8,
+        functions=["src/main.c:opts_setup", "src/main.c:opts_outmode", "src/main.c:opts_decompress", "src/main.c:main (invocation name)"],
+        witnesses=["options_refused", "decompressing_name", "all_tokens_used"] + ([] if one_env else ["two_environment_variables"]),
+        bounds="invocation name symbolic among lbzip2/bzip2/bunzip2/lbunzip2/bzcat/lbzcat/other; %d command-line token(s) drawn symbolically from a 32-entry vocabulary "
+               "(short, clustered, long, documented no-ops, --small); %s of LBZIP2/BZIP2/BZIP set to one of 12 values (one or two tokens, single/double/leading/trailing separators, tab)"
+               % (ntok, "at most one" if one_env else "any subset"),
+        assumptions=["strtok() modelled with C-standard semantics; getenv/isatty/sysconf stubbed (no terminal, 4 processors)",
+                     "signals.c not linked in this query: a refused option ends the path in bailout()",
+                     "reference = executable model of the documented rules (ref_apply in h_main.c)"],
+        outside=["FILE operands mixed with options, -n/-m arguments, --help/--version", "more than %d command-line tokens" % ntok])
+opts_ob("opts_tok1_env1", 1, True, "quick", 900)
+opts_ob("opts_tok2_env1", 2, True, "thorough", 2400)
+opts_ob("opts_tok1_env3", 1, False, "thorough", 2400)
